@@ -583,6 +583,110 @@ def gTlogProbT (P : RelaxedParams α) (bs : List (List α)) : List α :=
   let V := P.eventShape.headD 1
   bs.zipIdx.map fun bn => gTlogProb (paramRowAt P.logits V (prodL P.batchShape) bn.2) bn.1
 
+/-! ### The distribution OBJECT: lazily cached attributes and derived objects
+
+`RelaxedParams` is what a distribution IS (values).  The python object is less than that: the
+constructor stores the attribute it was given (`self._param = self.probs = …` resp. `self.logits`);
+the other one is a `lazy_property`, computed on the first read and then stored in `self.__dict__`;
+`expand` builds the NEW object from what it finds there:
+```
+if "probs" in self.__dict__:  new._param = new.probs = self.probs.expand(batch_shape)
+if "logits" in self.__dict__: new._param = new.logits = self.logits.expand(batch_shape)
+```
+So what a derived object holds depends on what was read on the original before (`csample` reads
+`probs`; `rsample`, `log_prob`, `tlog_prob`, `clog_prob`, `mean` read `logits`).  The model below
+follows that state; `C19_obj_lb_history` / `C19_obj_cat_history` show that what the object DENOTES
+does not depend on it. -/
+
+/-- `t.expand(pre + t.shape)` of a flat row-major tensor, `k = prod(pre)` -/
+def tile {β : Type} (k : Nat) (xs : List β) : List β := (List.replicate k xs).flatten
+
+/-- the object as python holds it: `probs?` / `logits?` = the entry of `self.__dict__`, if any -/
+structure RelaxedObj (α : Type) where
+  batchShape : List Nat
+  eventShape : List Nat
+  probs? : Option (List α)
+  logits? : Option (List α)
+
+/-- the bodies of the two `lazy_property`s: `logits_to_probs(self.logits, ..)` and
+`probs_to_logits(self.probs, ..)` on a whole (flat) tensor -/
+structure Conv (α : Type) where
+  toProbs : List α → List α
+  toLogits : List α → List α
+
+/-- `self.probs`: the stored tensor if `"probs" in self.__dict__`, else the `lazy_property` body on
+`self.logits`, whose result is stored.  -> (value, object afterwards).  (`getD []`: the
+constructor always stores one of the two.) -/
+def RelaxedObj.readProbs (C : Conv α) (o : RelaxedObj α) : List α × RelaxedObj α :=
+  match o.probs? with
+  | some p => (p, o)
+  | none =>
+    let p := C.toProbs (o.logits?.getD [])
+    (p, { o with probs? := some p })
+
+/-- `self.logits`, the same way -/
+def RelaxedObj.readLogits (C : Conv α) (o : RelaxedObj α) : List α × RelaxedObj α :=
+  match o.logits? with
+  | some l => (l, o)
+  | none =>
+    let l := C.toLogits (o.probs?.getD [])
+    (l, { o with logits? := some l })
+
+/-- `self.expand(pre + self.batch_shape)`: each attribute that is in `__dict__` is expanded, the
+other one stays lazy on the new object -/
+def RelaxedObj.expand (o : RelaxedObj α) (pre : List Nat) : RelaxedObj α :=
+  ⟨pre ++ o.batchShape, o.eventShape, o.probs?.map (tile (prodL pre)), o.logits?.map (tile (prodL pre))⟩
+
+/-- what an operation does to the object: reads of the two attributes (every method is a sequence
+of these as far as the object's state goes) and `expand`, after which the history continues on the
+derived object -/
+inductive ObjOp where
+  | probs
+  | logits
+  | expand (pre : List Nat)
+deriving Repr
+
+def RelaxedObj.step (C : Conv α) (o : RelaxedObj α) : ObjOp → RelaxedObj α
+  | .probs => (o.readProbs C).2
+  | .logits => (o.readLogits C).2
+  | .expand pre => o.expand pre
+
+/-- a whole history, left to right -/
+def RelaxedObj.run (C : Conv α) (o : RelaxedObj α) (h : List ObjOp) : RelaxedObj α :=
+  h.foldl (RelaxedObj.step C) o
+
+/-- what the object denotes: what a reader of `batch_shape`, `event_shape`, `probs`, `logits` gets -/
+def RelaxedObj.params (C : Conv α) (o : RelaxedObj α) : RelaxedParams α :=
+  ⟨o.batchShape, o.eventShape, (o.readProbs C).1, (o.readLogits C).1⟩
+
+/-- the leading axes a history adds: `expand(pre₁ + ·)` then `expand(pre₂ + ·)` gives `pre₂ ++ pre₁` -/
+def preOf (h : List ObjOp) : List Nat :=
+  h.foldl (fun acc op => match op with | .expand pre => pre ++ acc | _ => acc) []
+
+/-- `LogisticBernoulli.__init__`: the given tensor is stored under its own name, nothing else -/
+def lbObj (c : Ctor) (shape : List Nat) (data : List α) : RelaxedObj α :=
+  match c with
+  | .probs => ⟨shape, [], some data, none⟩
+  | .logits => ⟨shape, [], none, some data⟩
+
+/-- `logits_to_probs(·, is_binary=True)` / `probs_to_logits(·, is_binary=True)`: elementwise -/
+def lbConv (eps : α) : Conv α := ⟨List.map T.sigmoid, List.map (probsToLogitsBin T eps)⟩
+
+/-- `GumbelOneHotCategorical.__init__`: the given tensor is normalised along the class axis and
+stored under its own name -/
+def gObj (c : Ctor) (shape : List Nat) (data : List α) : RelaxedObj α :=
+  let V := shape.getLastD 1
+  let B := shape.dropLast
+  let rows := rowsOf V (prodL B) data
+  match c with
+  | .probs => ⟨B, [V], some (rows.map normRow).flatten, none⟩
+  | .logits => ⟨B, [V], none, some (rows.map (logSoftmaxRow T)).flatten⟩
+
+/-- `logits_to_probs(·)` = softmax along the last axis (`V` classes); `probs_to_logits(·)` =
+`log(clamp_probs(·))` elementwise -/
+def gConv (eps : α) (V : Nat) : Conv α :=
+  ⟨fun ls => ((rowsOf V (ls.length / V) ls).map (softmaxRow T)).flatten, List.map (probsToLogits T eps)⟩
+
 end Relaxed
 
 /-! ## Combinatorics (`_combinatorics.py`) -/
@@ -683,6 +787,59 @@ def srsworPartition (outSize total given : Nat) : Rat :=
 
 /-- `exp(log_prob(value))`: the same number for every `value` -/
 def srsworProb (outSize total given : Nat) : Rat := 1 / srsworPartition outSize total given
+
+/-! #### the SRSWOR distribution OBJECT
+
+`log_partition` is a `lazy_property` (computed from the counts on the first read — `log_prob` reads
+it — and stored in `__dict__`); `expand` expands the two counts and
+```
+if "log_partition" in self.__dict__: new.log_partition = self.log_partition.expand(batch_shape)
+```
+-/
+
+/-- the object as python holds it (flat row-major tensors over the batch; `partition?` = the entry
+`log_partition` of `__dict__`, exponentiated) -/
+structure SrsworObj where
+  batchShape : List Nat
+  outSize : Nat
+  total : List Nat
+  given : List Nat
+  partition? : Option (List Rat)
+
+/-- `self.log_partition` -/
+def SrsworObj.readPartition (o : SrsworObj) : List Rat × SrsworObj :=
+  match o.partition? with
+  | some p => (p, o)
+  | none =>
+    let p := List.zipWith (srsworPartition o.outSize) o.total o.given
+    (p, { o with partition? := some p })
+
+/-- `self.expand(pre + self.batch_shape)` -/
+def SrsworObj.expand (o : SrsworObj) (pre : List Nat) : SrsworObj :=
+  ⟨pre ++ o.batchShape, o.outSize, tile (prodL pre) o.total, tile (prodL pre) o.given,
+    o.partition?.map (tile (prodL pre))⟩
+
+/-- reads of the lazy attribute (`log_partition`, `log_prob`, `_log_normalizer`) and `expand` -/
+inductive SrsworOp where
+  | partition
+  | expand (pre : List Nat)
+deriving Repr
+
+def SrsworObj.step (o : SrsworObj) : SrsworOp → SrsworObj
+  | .partition => o.readPartition.2
+  | .expand pre => o.expand pre
+
+def SrsworObj.run (o : SrsworObj) (h : List SrsworOp) : SrsworObj := h.foldl SrsworObj.step o
+
+/-- `exp(log_prob(value))` per batch element: `(-self.log_partition).expand(..)` -/
+def SrsworObj.probs (o : SrsworObj) : List Rat := o.readPartition.1.map (1 / ·)
+
+def preOfS (h : List SrsworOp) : List Nat :=
+  h.foldl (fun acc op => match op with | .expand pre => pre ++ acc | _ => acc) []
+
+/-- `__init__`: the broadcast counts, nothing cached -/
+def srsworObj (shape : List Nat) (outSize : Nat) (total given : List Nat) : SrsworObj :=
+  ⟨shape, outSize, total, given, none⟩
 
 /-! ### enumerate_* -/
 
